@@ -231,6 +231,15 @@ def main_check(prop, tier, seed, replay=None):
         log(traceback.format_exc())
         write_evidence(prop, tier, seed, ctx, prep, obligations, time.time() - t0, 0, {'internal_error': traceback.format_exc()[-2000:]})
         return 2
+    # fixed findings suppress nothing: their witnesses are replayed and must pass
+    if hasattr(mod, 'judge_witness'):
+        for e in fixed + known:
+            fails = mod.judge_witness(e['witness'])
+            ctx.count('witness_replayed')
+            if fails and e in fixed:
+                ctx.violation('returned: %s -- %s' % (e['line'], fails[0]), **e['witness'])
+            elif fails:
+                ctx.known_hits[e.get('id', e['line'])] = {'what': e['line'], 'count': 1}
     rc = 0
     for fid, info in ctx.known_hits.items():
         print('KNOWN-FINDING: property=%s %s' % (prop, info['what']))
